@@ -267,14 +267,30 @@ func packError(p *model.PushPullPack) string {
 
 // send delivers a request to the service and records what the server accepted.
 func (w *l1World) send(c *l1Client, req *model.PushPullMessage) *exchange {
-	w.reqs++
+	ex := w.rawSend(req)
+	w.record(c, ex)
+	if w.waitBG {
+		w.env.WaitBackground(5 * time.Second)
+	}
+	return ex
+}
+
+// rawSend only talks to the service (safe to call from several goroutines).
+func (w *l1World) rawSend(req *model.PushPullMessage) *exchange {
 	ex := &exchange{req: req, errPacks: map[string]string{}}
+	ex.resp, ex.rpcErr, ex.timedOut = w.env.ProcessPushPull(req, l1Deadline)
+	return ex
+}
+
+// record does the harness' bookkeeping for an exchange.
+func (w *l1World) record(c *l1Client, ex *exchange) {
+	req := ex.req
+	w.reqs++
 	for _, p := range req.PushPullPacks {
 		for _, op := range p.Operations {
 			w.sentAny[opKey(op)] = true
 		}
 	}
-	ex.resp, ex.rpcErr, ex.timedOut = w.env.ProcessPushPull(req, l1Deadline)
 	if ex.resp != nil {
 		for _, p := range ex.resp.PushPullPacks {
 			if e := packError(p); e != "" {
@@ -314,10 +330,6 @@ func (w *l1World) send(c *l1Client, req *model.PushPullMessage) *exchange {
 			}
 		}
 	}
-	if w.waitBG {
-		w.env.WaitBackground(5 * time.Second)
-	}
-	return ex
 }
 
 // apply hands the response to the client.
